@@ -583,3 +583,101 @@ func TestKnownFindings(t *testing.T) {
 }
 
 var _ = hasKeyDeep
+
+// ---------------------------------------------------------------------------
+// A step that falls back to an unknown step AFTER some of its fields were already decoded keeps the
+// document order of every mapping it holds - also of mappings inside lists inside plugin configs,
+// which the decoder had already walked (and de-ordered a copy of) when the later field failed.
+
+var recFallback = ev.New("TestPropFallbackKeepsOrder", "command-looking steps with well-formed plugins (configs holding mappings directly and inside lists, keys in a drawn, unsorted order), an unknown field with a nested mapping, and one ill-typed field (label / env / cache / matrix / signature) so that the step falls back to an unknown step; the contents of that unknown step, and the JSON and YAML marshalling of the pipeline, must carry every mapping in document order at every depth; non-trivial = a mapping of >= 3 keys inside a list inside a plugin config and the ill-typed field comes after `plugins` in decoding order; distinct by document text")
+
+func TestPropFallbackKeepsOrder(t *testing.T) {
+	pool := []string{"zulu", "mike", "alpha", "yankee", "bravo", "x-ray", "delta", "10", "9", "Zed", "_u"}
+	ev.Check(t, 1500, 30000, func(t *rapid.T) {
+		q := func(s string) string { b, _ := json.Marshal(s); return string(b) }
+		obj := func(label string, n int, val func(i int) string) string {
+			ks := rapid.Permutation(pool).Draw(t, label+"keys")[:n]
+			parts := make([]string, n)
+			for i, k := range ks {
+				parts[i] = q(k) + ": " + val(i)
+			}
+			return "{" + strings.Join(parts, ", ") + "}"
+		}
+		leaf := func(int) string { return rapid.SampledFrom([]string{`1`, `"v"`, `true`, `null`}).Draw(t, "leaf") }
+		deepList := 0
+		cfg := func(label string) string {
+			return obj(label, rapid.IntRange(1, 3).Draw(t, label+"n"), func(i int) string {
+				switch rapid.IntRange(0, 2).Draw(t, label+"shape") {
+				case 0:
+					n := rapid.IntRange(2, 5).Draw(t, label+"ln")
+					if n >= 3 {
+						deepList++
+					}
+					return "[" + obj(label+"l", n, leaf) + ", " + obj(label+"l2", 2, leaf) + "]"
+				case 1:
+					return obj(label+"d", rapid.IntRange(2, 4).Draw(t, label+"dn"), leaf)
+				default:
+					return leaf(0)
+				}
+			})
+		}
+		bad := rapid.SampledFrom([]struct {
+			text  string
+			after bool
+		}{{`"label": [1, 2]`, false}, {`"env": ["a", "b"]`, true}, {`"cache": 42`, true}, {`"matrix": 5`, true}, {`"signature": "x"`, true}, {`"env": "FOO=bar"`, true}}).Draw(t, "bad")
+		fields := []string{
+			`"command": "echo"`,
+			`"plugins": [{"docker#v1": ` + cfg("p1") + `}, {"ecr#v2": ` + cfg("p2") + `}]`,
+			`"agents": ` + obj("ag", rapid.IntRange(2, 4).Draw(t, "agn"), func(int) string { return obj("agd", 2, leaf) }),
+			bad.text,
+		}
+		fields = rapid.Permutation(fields).Draw(t, "fieldorder")
+		stepText := "{" + strings.Join(fields, ", ") + "}"
+		text := `{"steps": [` + stepText + `]}`
+		p, err := pipeline.Parse(strings.NewReader(text))
+		if p == nil || len(p.Steps) != 1 {
+			t.Fatalf("Parse: %v\n%s", err, text)
+		}
+		u, ok := p.Steps[0].(*pipeline.UnknownStep)
+		if !ok {
+			t.Fatalf("the step has an ill-typed field (%s) but parsed as %T\n%s", bad.text, p.Steps[0], text)
+		}
+		want, werr := gt.FromJSON([]byte(stepText))
+		if werr != nil {
+			t.Fatalf("harness: %v", werr)
+		}
+		if d := gt.Diff(want, canon.Value(u.Contents), gt.Opt{}); d != "" {
+			t.Fatalf("the unknown step's contents differ from the step as written (order included): %s\n%s", d, text)
+		}
+		jb, err := json.Marshal(p)
+		if err != nil {
+			t.Fatalf("json.Marshal: %v", err)
+		}
+		got, _ := gt.FromJSON(jb)
+		gs, _ := got.Get("steps")
+		if gs == nil || len(gs.Items) != 1 {
+			t.Fatalf("marshalled pipeline has no single step: %s", jb)
+		}
+		if d := gt.Diff(want, gs.Items[0], gt.Opt{}); d != "" {
+			t.Fatalf("JSON marshalling of the fallback step differs from the step as written (order included): %s\n%s\n%s", d, jb, text)
+		}
+		yb, err := yaml.Marshal(p)
+		if err != nil {
+			t.Fatalf("yaml.Marshal: %v", err)
+		}
+		yn, yerr := gt.FromYAML(yb)
+		if yerr != nil {
+			t.Fatalf("marshalled YAML does not decode: %v\n%s", yerr, yb)
+		}
+		ys, _ := yn.Get("steps")
+		if ys == nil || len(ys.Items) != 1 {
+			t.Fatalf("marshalled YAML has no single step:\n%s", yb)
+		}
+		if d := gt.Diff(want, ys.Items[0], gt.Opt{}); d != "" {
+			t.Fatalf("YAML marshalling of the fallback step differs from the step as written (order included): %s\n%s\n%s", d, yb, text)
+		}
+		nt := deepList > 0 && bad.after
+		recFallback.Case(ev.HashStr(text), nt, "bad="+strings.SplitN(bad.text, ":", 2)[0])
+		recFallback.MaybeSample(nt, func() any { return text })
+	})
+}
